@@ -142,3 +142,65 @@ def run(ctx):
                   'a short copy zeroes the tail of every realigned survivor: success with wrong bytes')
     c01.rule_realign(ctx, P, rb, rc)
     rb.require_min(5); rc.require_min(2)
+    # ---------------- R02f premise of the adapters that drop the built-in RS result
+    r = ctx.rule('R02f', 'built-in RS decode / reconstruct refuse only when more than m fragments are missing (premise for the adapter not propagating their result)',
+                 'the adapter returns 0 whatever the built-in code reports: a refusal at exactly m missing becomes success with an untouched zero-filled buffer')
+    from ..poly import PolyCtx, Poly
+    from ..loops import loops_of
+    for fname in ('liberasurecode_rs_vand_decode', 'liberasurecode_rs_vand_reconstruct'):
+        cands = [m.functions['@' + fname] for m in P.mods if m.src == 'src/builtin/rs_vand/liberasurecode_rs_vand.c' and ('@' + fname) in m.functions]
+        if not cands:
+            raise AnalysisBroken(f'anchor vanished: built-in {fname}')
+        bf = cands[0]
+        ad = P.fns.get('@' + fname + '$static')
+        if ad is not None:
+            uses_result = any(c.op == 'call' and c.res and any(c.res in (u.ops if u.op != 'phi' else [v for v, _ in u.incoming]) for u in ad.insts())
+                              for c in ad.insts() if c.op == 'call' and c.callee.startswith('%'))
+            if uses_result:
+                r.ok(f'{fname}: the adapter uses the result of the built-in code (premise not needed)', func=ad.name, loc=ad.mod.src)
+                continue
+        pcb = PolyCtx(P, bf)
+        names = [n for _, n in bf.params]
+        mi = 4                       # (generator_matrix, data, parity, k, m, missing, ...)
+        K, M = Poly.atom('arg3'), Poly.atom('arg4')
+        ivs = {}
+        for L in loops_of(P, bf, pcb):
+            for nme, (init, step) in L.ivs().items():
+                if init is not None and not isinstance(init, tuple) and init.is_zero() and step == Poly.const(1):
+                    ivs[nme] = L
+        negs = []
+        for t in [i for i in bf.insts() if i.op == 'ret' and i.ops]:
+            d = bf.defs.get(t.ops[0])
+            inc = d.incoming if d is not None and d.op == 'phi' else [(t.ops[0], None)]
+            for v, lab in inc:
+                if re.match(r'^-\d+$', v):
+                    negs.append((v, bf.blocks[lab] if lab else t.bb, t))
+        if not negs:
+            r.ok(f'{fname}: never refuses', func=bf.name, loc=bf.mod.src, trivial=True)
+        for v, blk, t in negs:
+            F = Facts(P, bf, blk)
+            okg, seen = False, []
+            for raw, truth in F.raw:
+                if raw.op != 'icmp':
+                    continue
+                from ..guards import NEG as _NEG
+                pred = raw.pred if truth else _NEG[raw.pred]
+                Pp = pcb.val(raw.ops[0]) - pcb.val(raw.ops[1])
+                norm = {'sgt': (Pp, 1), 'sge': (Pp, 0), 'slt': (-Pp, 1), 'sle': (-Pp, 0), 'ugt': (Pp, 1), 'uge': (Pp, 0), 'ult': (-Pp, 1), 'ule': (-Pp, 0)}.get(pred)
+                if norm is None:
+                    continue
+                Q, c = norm                      # Q >= c on this edge
+                cnt = [a for a in Q.atoms() if a in ivs]
+                if len(cnt) == 1:
+                    seen.append(f'{Q} >= {c}')
+                    if Q - Poly.const(c) == Poly.atom(cnt[0]) - M - Poly.const(1):
+                        okg = True
+            inst = f'{fname}: return {v} at line {blk.insts[-1].line} only when the number of missing fragments exceeds m'
+            if okg:
+                r.ok(inst, func=bf.name, loc=blk.insts[-1].loc)
+            else:
+                r.fail(inst, func=bf.name, sig=f'refusal guard {seen[:2]}', loc=blk.insts[-1].loc,
+                       msg=f'the built-in code returns {v} under {seen or "no count test"} - not exactly "missing count >= m + 1": its adapter ignores the result, '
+                           'so the front end reports success while nothing was rebuilt')
+    r.require_min(2)
+    ctx.borrow('c05', ['R05e'], 'a loop variable of the wrong index space rebuilds a fragment from the wrong buffers and reports success')
